@@ -173,7 +173,13 @@ def enumerate_faults(ctx, runner: Runner, fs: FileSet, thorough: bool, phase: in
     runner.install(fs)
     sane = runner.both_roles(fs)
     if sane != (0, 0):
-        raise RuntimeError(f"generated file set {fs.label} does not compare equal to itself: {sane}")
+        # the model says: a complete, valid generated file compares equal to itself in both roles.  An implementation
+        # that rejects it breaks the correspondence the fault enumeration rests on (the premise "valid file" can no
+        # longer be established for this file set); reported as such, never as an infrastructure failure.
+        ctx.mismatch({"kind": "complete-file-self-comparison", "set": fs.label, "target": fs.target,
+                      "content_hex": full.hex()[:4000]}, {"exit_both_roles": list(sane)}, {"exit_both_roles": [0, 0]},
+                     what="a complete generated file does not compare equal to itself")
+        return
     stats = ctx.extra.setdefault("fault_statistics", {})
     st = stats.setdefault(fs.label, {"size": len(full), "cuts": 0, "lost": 0, "same": 0, "tolerance": 0,
                                      "exit0": 0, "exit_nonzero": 0, "removals": 0, "shortened": 0})
